@@ -786,8 +786,11 @@ class Item:
             ty_end = o
             while self.text[ty_end - 1] in ' \n':
                 ty_end -= 1
-            if re.search(r'\bwhere\b', self.text[ty_start:ty_end]):
-                raise ExtractError('%s: where-clause in signature not supported' % fn)
+            mw = re.search(r'\bwhere\b', self.text[ty_start:ty_end])
+            if mw:      # `-> T where F: ..` : the name wraps T only; the contract still goes after the where clause
+                ty_end = ty_start + mw.start()
+                while self.text[ty_end - 1] in ' \n':
+                    ty_end -= 1
             # insert from the back so positions stay valid
             self.text = self.text[:ty_end] + sp(')') + self.text[ty_end:o] + sp(contract) + self.text[o:]
             self.text = self.text[:ty_start] + sp('(%s: ' % ret) + self.text[ty_start:]
